@@ -161,8 +161,7 @@ def _get_singularity(expr, V, U_offset, exp_function):
         assert m is None or m[P_wildcard] != 0
         return m is not None and \
             (sp == m[SP_wildcard] or
-             (isinstance(sp, (Float, float)) and
-             isinstance(m[SP_wildcard], (Float, float)) and
+             (getattr(sp, 'is_number', True) and getattr(m[SP_wildcard], 'is_number', True) and
              isclose(m[SP_wildcard], sp)))
 
     # find all fractions and sperate numerator and denominator
